@@ -122,7 +122,21 @@ def runStreamJl (prop tiS toS readerS extS implS : String) : Result :=
       let (bytes, readerFails) := readerBytes revs
       let reported := exit != 0 || nerr > 0 || failed > 0
       let p : Option String :=
-        if prop != "C08" then none
+        if prop == "C07" then
+          -- one outcome per line, in order, each a function of that line alone: what reaches standard output and
+          -- how many lines were refused are those of the per-line outcomes folded through a processor that
+          -- carries on (the command's own), whatever the logging context
+          if readerFails || hasOverLongLine cfg.maxSize bytes then none
+          else
+            match Stream.specObs cfg bytes with
+            | .ok sobs =>
+              let sOut := sobs.writes.foldl (· ++ ·) []
+              let sErr := (sobs.calls.filter fun c => c.2.isSome).length
+              if exit != 0 || failed > 0 then some "command-failed-on-a-readable-stream"
+              else if sOut != out || sErr != nerr then some "outcomes-differ-from-per-line-outcomes"
+              else none
+            | _ => none
+        else if prop != "C08" then none
         else if readerFails && !reported then some "reader-failure-swallowed"
         else if !readerFails && hasOverLongLine cfg.maxSize bytes && !reported then some "oversize-line-swallowed"
         else none
